@@ -163,7 +163,7 @@ func databaseImplsReadStorage(c *core.Ctx) {
 	p := c.P
 	n := 0
 	for _, f := range libFuncs(p) {
-		if cn(f) != "EntityWithName" || f.Signature.Recv() == nil || f.Parent() != nil {
+		if cn(f) != "EntityWithName" || core.Active.RecvOf(f) == nil || f.Parent() != nil {
 			continue
 		}
 		n++
@@ -1326,24 +1326,41 @@ func c09r7(c *core.Ctx) {
 				return
 			}
 			c.Check(core.Dominated(i, core.TrueFact(func(v ssa.Value) bool { return v == ssa.Value(flag) })), "multi-status-iff-failure@"+fname(f), posOf(i), "207 is written only when some entry failed", "207 is not tied to 'some entry failed' (the test is inverted or missing)")
-			// the flag becomes true exactly on the path that stored an error status
+			// the flag becomes true exactly in the iterations that stored an error status: decided per iteration path, with the
+			// flag's value read off the edges the path takes (robust against where in the iteration the flag is set)
 			setOK := false
-			for _, e := range flag.Edges {
-				if ph2, ok := e.(*ssa.Phi); ok {
-					for k, e2 := range ph2.Edges {
-						if v, isK := core.ConstInt(e2); isK && v == 1 {
-							// predecessor block k stores an error status
-							pred := ph2.Block().Preds[k]
-							for _, x := range pred.Instrs {
-								if st, ok := x.(*ssa.Store); ok {
-									if fa, ok := st.Addr.(*ssa.FieldAddr); ok && fieldNameOf(fa) == "Status" {
-										setOK = true
-									}
-								}
-							}
+			if gl := findGetLoop(f); gl != nil && flag.Block() == gl.header {
+				good, bad := 0, 0
+				core.EnumPaths(f, 2, 400000, func(pa core.Path) {
+					var idx []int
+					for k, b := range pa {
+						if b == gl.header {
+							idx = append(idx, k)
 						}
 					}
-				}
+					for n := 0; n+1 < len(idx); n++ {
+						stored := false
+						pa[idx[n]:idx[n+1]].Instrs(func(x ssa.Instruction) {
+							if st, ok := x.(*ssa.Store); ok {
+								if fa, ok := st.Addr.(*ssa.FieldAddr); ok && fieldNameOf(fa) == "Status" && !core.IsNilConst(st.Val) {
+									stored = true
+								}
+							}
+						})
+						after := pa.ResolveAt(idx[n+1], flag)
+						before := pa.ResolveAt(idx[n], flag)
+						isTrue := func(v ssa.Value) bool { k, ok := core.ConstInt(v); return ok && k == 1 }
+						switch {
+						case stored && isTrue(after):
+							good++
+						case !stored && (after == before || sameConst(after, before)):
+							good++
+						default:
+							bad++
+						}
+					}
+				})
+				setOK = bad == 0 && good > 0
 			}
 			c.Check(setOK, "failure-flag-set@"+fname(f), posOf(i), "the failure flag is set where an error status is stored", "storing an error status does not set the failure flag: the answer goes out as 200 with a status member only on the failed entry")
 		case 204:
@@ -1470,4 +1487,13 @@ func c09r7(c *core.Ctx) {
 func isLenOfCall(call *ssa.Call, x ssa.Value) bool {
 	b, ok := call.Call.Value.(*ssa.Builtin)
 	return ok && b.Name() == "len" && call.Call.Args[0] == x
+}
+
+func sameConst(a, b ssa.Value) bool {
+	ca, ok1 := a.(*ssa.Const)
+	cb, ok2 := b.(*ssa.Const)
+	if !ok1 || !ok2 || ca.Value == nil || cb.Value == nil {
+		return false
+	}
+	return ca.Value.ExactString() == cb.Value.ExactString()
 }
